@@ -128,6 +128,7 @@ func runC11(c map[string]interface{}) []Event {
 	var evs []Event
 	prevSnap := ""
 	dead := false
+	fullCount := 0
 	ops := arr(c["ops"])
 	for k, opv := range ops {
 		op := opv.(map[string]interface{})
@@ -244,7 +245,17 @@ func runC11(c map[string]interface{}) []Event {
 					}
 				}
 			}
-			for _, p := range pts {
+			// the fixed query points are asked in alternating order, so that the first question after an operation is the last
+			// question before it (asking the same thing again after a delete is what a caller snapping to features does)
+			fullCount++
+			ordered := pts
+			if fullCount%2 == 0 {
+				ordered = make([][2]int, len(pts))
+				for i := range pts {
+					ordered[i] = pts[len(pts)-1-i]
+				}
+			}
+			for _, p := range ordered {
 				gp := geom.Point{X: float64(p[0]), Y: float64(p[1])}
 				if sz > 0 {
 					var r geom.Geom
